@@ -290,11 +290,11 @@ type weights []struct {
 	w  int
 }
 
-var modelWeights = weights{{"put", 22}, {"putext", 14}, {"del", 10}, {"get", 12}, {"browse", 6}, {"browseall", 3}, {"applyflags", 6},
+var modelWeights = weights{{"put", 22}, {"putext", 14}, {"del", 10}, {"delall", 3}, {"get", 12}, {"browse", 6}, {"browseall", 3}, {"applyflags", 6},
 	{"sync", 6}, {"nosync", 2}, {"defrag", 6}, {"flush", 2}, {"count", 1}, {"reopen", 8}}
 
 // the crash workloads: mostly writes and the operations with file effects
-var crashWeights = weights{{"put", 26}, {"putext", 10}, {"del", 12}, {"get", 3}, {"browse", 2}, {"applyflags", 2},
+var crashWeights = weights{{"put", 26}, {"putext", 10}, {"del", 12}, {"delall", 2}, {"get", 3}, {"browse", 2}, {"applyflags", 2},
 	{"sync", 10}, {"nosync", 2}, {"defrag", 10}, {"flush", 1}, {"reopen", 8}}
 
 func genLen(t *rapid.T, big bool) int {
@@ -413,6 +413,9 @@ func TestQdbModel(t *testing.T) {
 		if sum.Browses > 0 {
 			r.Class("browse")
 		}
+		if sum.Emptied > 0 && sum.Reopens > 1 {
+			r.Class("emptied_store")
+		}
 		if sum.AbortWithFlag > 0 {
 			r.Class("no_browse_with_abort")
 		}
@@ -467,6 +470,11 @@ func simulate(c kvCase) (initial map[int][]byte, steps []simStep) {
 		case "del":
 			delete(cur, k)
 			st.writes[k] = nil
+		case "delall":
+			for kk := range cur {
+				st.writes[kk] = nil
+			}
+			cur = map[int][]byte{}
 		case "sync":
 			st.durable = !vol // Sync() is a no-op in volatile mode
 		case "reopen":
